@@ -159,7 +159,7 @@ def universe_of(ops_list, extra=()):
     u = []
     seen = set()
     for op in ops_list:
-        if op[0] in ("merge", "saveload", "query", "q", "copy", "tmpmerge"):
+        if op[0] in ("merge", "saveload", "query", "q", "copy", "tmpmerge", "selfmerge"):
             continue
         for k, _ in effects(op):
             if k not in seen:
@@ -180,7 +180,11 @@ def gen_multi_history(rng, keys, n_sk, n_ev, p_merge=0.12, p_saveload=0.06, p_co
     for _ in range(n_ev):
         r = rng.random()
         if r > 1.0 - p_copy:
-            if rng.random() < 0.6:
+            if rng.random() < 0.12:
+                # the sketch is merged into itself many times: every true count and n_added() double each time (n_added() wraps
+                # past 2^64 after 64 of them; counters must simply saturate)
+                events.append(["selfmerge", int(rng.integers(0, n_sk)), [1, 2, 23, 54, 64, 70][int(rng.integers(0, 6))]])
+            elif rng.random() < 0.6:
                 events.append(["copy", int(rng.integers(0, n_sk)), ["deepcopy", "pickle", "copy"][int(rng.integers(0, 3))]])
             else:
                 events.append(["tmpmerge", int(rng.integers(0, n_sk)), [gen_op(rng, keys, **dict(opkw, failing=False)) for _ in range(int(rng.integers(1, 4)))]])
